@@ -131,11 +131,11 @@ func (pl *replayPlan) build(path string, t types.Type, v *Val, depth int, settab
 			}
 			save := ex.bound
 			ex.bound = 1 // no fresh definitions: plain select terms
-			fv := ex.heapRead(entry, typeKey(et), v.S, f.Name(), ksh, f.Type())
+			fv := ex.heapRead(entry, heapTypeKey(et), v.S, f.Name(), ksh, f.Type())
 			ex.bound = save
 			k := pl.build(path+"."+f.Name(), f.Type(), fv, depth-1, true)
 			if k != nil {
-				pl.attachOut(k, typeKey(et), v.S, f.Name())
+				pl.attachOut(k, heapTypeKey(et), v.S, f.Name())
 				n.Kids = append(n.Kids, k)
 			}
 		}
